@@ -18,7 +18,20 @@ feature lists and chunk sizes > 0; rows are opaque tokens.
 * `export_unfiltered`       without filter every row is exported;
 * `export_duplicates_irrelevant`, `export_carries_metadata`, `length_check_makes_selection_safe`;
 * `tsv_rows`                one row per selected event with that event's values;
-  `tsv_chunked_rows`        a chunked table writer (any chunk size) yields the same rows.
+  `tsv_chunked_rows`        a chunked table writer (any chunk size) yields the same rows;
+* `feature_list_normalised`, `feature_list_order_independent`, `export_order_independent`,
+  `export_exactly_requested`, `export_default_features`   `sorted(set(features))` is sorted,
+  duplicate-free, a permutation of the request and determined by the *set* of requested names;
+  the output holds exactly the requested features;
+* `prefixed_names_injective`, `export_log_lookup`, `export_log_name_distinct`
+                            carried-over logs are found under their prefixed names, no collisions;
+* `export_ignores_directory_history`, `export_directory_frame`, `export_refuses_existing`
+                            the exported file does not depend on what earlier exports (completed,
+                            failed, killed) left in the output directory; `stale_temp_file_witness`
+                            shows a temp-file variant without that property;
+* `tsv_text_structure`, `tsv_text_chunked`, `tsv_values_recoverable`
+                            comment lines, `# names`, `# labels`, then one data line per selected
+                            event whose cells are the formatted values in column order.
 -/
 namespace DclabModel.C02
 open DclabModel.Export
@@ -289,5 +302,246 @@ theorem tsv_unfiltered (src : Src α) (mask : List Bool) (feats : List String)
 
 example : tsvRows demoSrc true [true, false, true, true, true] ["Deform", "deform"]
     = some (["deform"], [[1], [3], [4], [5]]) := by decide +kernel
+
+/-! ## 6. the requested feature list -/
+
+/-- **feature list.** `sorted(set(features))`: the list the feature loop runs over is in ascending
+order, free of duplicates, a permutation of the de-duplicated request, and holds exactly the
+requested names -/
+theorem feature_list_normalised (feats : List String) :
+    (normFeats feats).Pairwise (· ≤ ·) ∧ (normFeats feats).Nodup ∧
+      (normFeats feats).Perm (dedup feats) ∧ ∀ a, a ∈ normFeats feats ↔ a ∈ feats :=
+  ⟨isort_sorted _, nodup_normFeats feats, isort_perm _ _, fun a => mem_normFeats a feats⟩
+
+/-- the normalised list is *determined* by the set of requested names: order and multiplicity of
+the request are irrelevant -/
+theorem feature_list_order_independent (f₁ f₂ : List String) (h : ∀ a, a ∈ f₁ ↔ a ∈ f₂) :
+    normFeats f₁ = normFeats f₂ :=
+  sorted_nodup_ext _ _ (isort_sorted _) (isort_sorted _) (nodup_normFeats f₁) (nodup_normFeats f₂)
+    (fun a => by rw [mem_normFeats, mem_normFeats, h a])
+
+/-- … and therefore for the whole export (any permutation, any duplication of the request) -/
+theorem export_order_independent [Inhabited α] (src : Src α) (o : Opts) (mask : List Bool)
+    (f₁ f₂ : List String) (h : ∀ a, a ∈ f₁ ↔ a ∈ f₂) :
+    exportHdf5 src o mask f₁ = exportHdf5 src o mask f₂ := by
+  unfold exportHdf5
+  rw [feature_list_order_independent f₁ f₂ h]
+
+/-- **exactly the requested features**: every entry of the output is a requested feature holding
+that feature's selected rows, and every requested feature with a non-empty selection is there -/
+theorem export_exactly_requested [Inhabited α] (src : Src α) (o : Opts) (mask : List Bool)
+    (feats : List String) (fts : List (Feat α))
+    (hlk : lookupAll src (normFeats feats) = some fts)
+    (hok : Ok o fts (effMask src o mask fts)) :
+    ∃ fl, exportHdf5 src o mask feats = some fl ∧
+      (∀ p ∈ fl.events, p.1 ∈ feats ∧ ∃ ft, lookup src p.1 = some ft ∧
+        p.2 = target (effMask src o mask fts) ft) ∧
+      ∀ f ∈ feats, ∀ ft, lookup src f = some ft → target (effMask src o mask fts) ft ≠ [] →
+        f ∈ fl.events.map (·.1) := by
+  obtain ⟨fl, hfl, hread, _⟩ := export_run src o mask feats fts hlk hok
+  refine ⟨fl, hfl, export_run_names src o mask feats fts hlk hok fl hfl, ?_⟩
+  intro f hf ft hft hne
+  apply readEv_ne_nil_mem
+  have := hread f hf ft hft
+  unfold Export.read at this
+  rw [this]; exact hne
+
+/-- `features=None` exports the innate features -/
+theorem export_default_features [Inhabited α] (src : Src α) (o : Opts) (mask : List Bool)
+    (innate : List String) :
+    exportHdf5 src o mask (reqFeats none innate) = exportHdf5 src o mask innate := rfl
+
+example : normFeats ["image", "deform", "image", "contour", "deform"]
+    = ["contour", "deform", "image"] := by decide
+
+/-! ## 7. names of the carried-over logs and tables -/
+
+/-- prefixing is injective: no two logs (tables) of the source collide in the output, whatever
+the prefix -/
+theorem prefixed_names_injective (pfx a b : String) (h : pfx ++ a = pfx ++ b) : a = b :=
+  prefix_injective pfx a b h
+
+/-- **logs by name.** With logs requested, every log of the source is found in the output under
+its prefixed name with unchanged lines (source log names are the keys of a mapping, hence
+pairwise different), and nothing else is there -/
+theorem export_log_lookup [Inhabited α] (src : Src α) (o : Opts) (mask : List Bool)
+    (feats : List String) (fts : List (Feat α))
+    (hlk : lookupAll src (normFeats feats) = some fts)
+    (hok : Ok o fts (effMask src o mask fts)) (hlogs : o.logs = true)
+    (hnd : (src.logs.map (·.1)).Nodup) :
+    ∃ fl, exportHdf5 src o mask feats = some fl ∧
+      (fl.logs.map (·.1)).Nodup ∧ fl.logs.length = src.logs.length ∧
+      ∀ n lines, (n, lines) ∈ src.logs → findLog fl.logs (o.pfx ++ n) = some lines := by
+  obtain ⟨fl, hfl, _, _, _, _, hl, _⟩ := export_run src o mask feats fts hlk hok
+  refine ⟨fl, hfl, ?_, ?_, ?_⟩
+  · rw [hl, hlogs]; exact prefixed_nodup o.pfx src.logs hnd
+  · rw [hl, hlogs]; simp
+  · intro n lines hm
+    apply findLog_of_mem
+    · rw [hl, hlogs]; exact prefixed_nodup o.pfx src.logs hnd
+    · rw [hl, hlogs]
+      exact List.mem_map.mpr ⟨(n, lines), hm, rfl⟩
+
+/-- the export's own log (`dclab-export_<time>`) never collides with a carried-over log under
+the default prefix -/
+theorem export_log_name_distinct (n t : String) : "src_" ++ n ≠ "dclab-export_" ++ t := by
+  intro h
+  have := congrArg String.toList h
+  simp only [String.toList_append] at this
+  have h1 : ("src_" : String).toList = ['s', 'r', 'c', '_'] := rfl
+  have h2 : ("dclab-export_" : String).toList = 'd' :: "clab-export_".toList := rfl
+  rw [h1, h2] at this
+  simp at this
+
+/-- without a prefix a source log that carries the name of the export log *is* merged with it
+(append-mode `write_text`): the prefix is what keeps the logs apart -/
+theorem empty_prefix_merges_witness :
+    appendLogs [("dclab-export_T", ["{…}"])] (prefixed "" [("dclab-export_T", ["old"])])
+      = [("dclab-export_T", ["{…}", "old"])] ∧
+    appendLogs [("dclab-export_T", ["{…}"])] (prefixed "src_" [("dclab-export_T", ["old"])])
+      = [("dclab-export_T", ["{…}"]), ("src_dclab-export_T", ["old"])] := by
+  decide
+
+/-! ## 8. the output directory -/
+
+/-- **history independence.** Whatever the output directory contains (files left by earlier
+exports to the same path that completed, raised or were killed half-way — any `d`), an export
+with `override` produces at `path` exactly the file of an export to a fresh path, and touches no
+other file -/
+theorem export_ignores_directory_history [Inhabited α] (d : Dir α) (path : String) (src : Src α)
+    (o : Opts) (mask : List Bool) (feats : List String) (hnd : (src.logs.map (·.1)).Nodup) :
+    exportAt d path true src o mask feats =
+      match exportHdf5 src o mask feats with
+      | some fl => .done (dirSet d path fl)
+      | none => .failed := by
+  unfold exportAt
+  simp only [Bool.not_true, Bool.false_and, Bool.false_eq_true, if_false]
+  have hget : dirGet (if (dirGet d path).isSome = true then dirErase d path else d) path = none := by
+    split
+    · exact dirGet_erase_self d path
+    · rename_i h
+      cases hg : dirGet d path with
+      | none => rfl
+      | some f => simp [hg] at h
+  have hset : ∀ fl, dirSet (if (dirGet d path).isSome = true then dirErase d path else d) path fl
+      = dirSet d path fl := by
+    intro fl
+    split
+    · simp only [dirSet, dirErase_idem]
+    · rfl
+  rw [hget]
+  simp only [Option.getD_none, exportOnto_empty src o mask feats hnd, hset]
+  rfl
+
+/-- the exported file is found at `path`, every other file of the directory is what it was -/
+theorem export_directory_frame [Inhabited α] (d : Dir α) (path : String) (src : Src α)
+    (o : Opts) (mask : List Bool) (feats : List String) (hnd : (src.logs.map (·.1)).Nodup)
+    (fl : File α) (hfl : exportHdf5 src o mask feats = some fl) :
+    ∃ d', exportAt d path true src o mask feats = .done d' ∧ dirGet d' path = some fl ∧
+      ∀ q, q ≠ path → dirGet d' q = dirGet d q := by
+  refine ⟨dirSet d path fl, ?_, dirGet_set_self d path fl, fun q hq => dirGet_set_other d path q fl hq⟩
+  rw [export_ignores_directory_history d path src o mask feats hnd, hfl]
+
+/-- without `override` an existing output file is refused (and not touched) -/
+theorem export_refuses_existing [Inhabited α] (d : Dir α) (path : String) (src : Src α)
+    (o : Opts) (mask : List Bool) (feats : List String) (f : File α) (h : dirGet d path = some f) :
+    exportAt d path false src o mask feats = .exists_ := by
+  unfold exportAt
+  simp [h]
+
+def staleFile : File Nat :=
+  { events := [("deform", [91, 92, 93]), ("image", [81, 82])], eventCount := 3,
+    derivedRunId := true, cfg := [], logs := [("src_log", ["stale"])], tables := [] }
+
+def eventsAt (r : Outcome Nat) (p : String) : Option (Events Nat × Nat) :=
+  match r with
+  | .done d => (dirGet d p).map fun fl => (fl.events, fl.eventCount)
+  | _ => none
+
+/-- **the `unlink` matters.** A variant that writes through the neighbour `path~` with the
+append-mode writer and does not remove a temporary file that is already there (left by a killed
+export) delivers the stale events in front of the selected ones — while dclab's export of the
+same request into the same directory (and into one where the stale file sits at `path` itself)
+delivers exactly the selection -/
+theorem stale_temp_file_witness :
+    eventsAt (exportAtTemp [("out.rtdc~", staleFile)] "out.rtdc" true demoSrc { cs := 2, csw := 2 }
+      [true, false, true, true, false] ["deform", "image"]) "out.rtdc"
+      = some ([("deform", [91, 92, 93, 1, 3, 4]), ("image", [81, 82, 11, 13, 14])], 6) ∧
+    eventsAt (exportAt [("out.rtdc~", staleFile), ("out.rtdc", staleFile)] "out.rtdc" true demoSrc
+      { cs := 2, csw := 2 } [true, false, true, true, false] ["deform", "image"]) "out.rtdc"
+      = some ([("deform", [1, 3, 4]), ("image", [11, 13, 14])], 3) := by
+  decide +kernel
+
+/-- the variant is indistinguishable from dclab's export as long as no `path~` exists — a single
+export into a clean directory, repeated exports and overriding a complete file all agree -/
+theorem temp_variant_agrees_without_stale_file [Inhabited α] (d : Dir α) (path : String)
+    (src : Src α) (o : Opts) (mask : List Bool) (feats : List String)
+    (hnd : (src.logs.map (·.1)).Nodup) (hclean : dirGet d (path ++ "~") = none) :
+    exportAtTemp d path true src o mask feats = exportAt d path true src o mask feats := by
+  rw [export_ignores_directory_history d path src o mask feats hnd]
+  unfold exportAtTemp
+  simp only [Bool.not_true, Bool.false_and, Bool.false_eq_true, if_false, hclean,
+    Option.getD_none, exportOnto_empty src o mask feats hnd, dirErase_absent d _ hclean]
+  rfl
+
+/-! ## 9. the text of a `.tsv` file -/
+
+/-- **TSV text.** For every source, mask, scalar feature list, formatter and label function: the
+file consists of comment lines followed by data lines only; the last two comment lines are the
+sorted lower-case feature names and their labels (same order); there is exactly one data line
+per selected event, in order, and its `k`-th cell is the formatted value of the `k`-th column's
+feature at that event -/
+theorem tsv_text_structure [Inhabited α] (fmt : α → String) (label : String → String)
+    (metaLines : List (List String)) (src : Src α) (mask : List Bool) (feats : List String)
+    (fts : List (Feat α)) (hlk : lookupAll src (tsvFeats feats) = some fts) (hne : fts ≠ [])
+    (hsc : fts.all (fun ft => ft.kind = .scalar) = true)
+    (hr : ∀ ft ∈ fts, ∀ i ∈ indices mask, i < ft.rows.length) :
+    ∃ txt, tsvText fmt label metaLines src true mask feats = some txt ∧
+      commentCells txt = metaLines ++ [tsvFeats feats, (tsvFeats feats).map label] ∧
+      dataCells txt = (indices mask).map (fun j => fts.map fun ft => fmt (ft.rows.getD j default)) ∧
+      (dataCells txt).length = countTrue mask ∧
+      txt = (commentCells txt).map .comment ++ (dataCells txt).map .data := by
+  have hrows := tsv_rows src mask feats fts hlk hne hsc hr
+  unfold tsvText
+  rw [hrows]
+  simp only
+  have hmap : ∀ rows : List (List α), rows.map (fun r => Line.data (r.map fmt))
+      = (rows.map (fun r => r.map fmt)).map Line.data := by
+    intro rows; rw [List.map_map]; rfl
+  rw [hmap]
+  obtain ⟨hc, hd⟩ := text_shape metaLines (tsvFeats feats) ((tsvFeats feats).map label)
+    (((indices mask).map fun j => fts.map fun ft => ft.rows.getD j default).map
+      (fun r => r.map fmt))
+  refine ⟨_, rfl, hc, ?_, ?_, ?_⟩
+  · rw [hd]; simp [List.map_map, Function.comp_def]
+  · rw [hd]; simp [indices_length]
+  · rw [hc, hd]; simp
+
+/-- values can be read back as precisely as the formatter allows: if `fmt` is injective up to the
+relation `close` (two numbers with the same text are `close`), every number a reader can
+associate with the cell of selected event `j` in column `ft` is `close` to the source value -/
+theorem tsv_values_recoverable [Inhabited α] (fmt : α → String) (close : α → α → Prop)
+    (hinj : ∀ x y, fmt x = fmt y → close x y) (ft : Feat α) (j : Nat) (v : α)
+    (hcell : fmt v = fmt (ft.rows.getD j default)) : close v (ft.rows.getD j default) :=
+  hinj _ _ hcell
+
+/-- a writer that puts out the data lines in chunks of any size `c > 0` writes the same text -/
+theorem tsv_text_chunked [Inhabited α] (fmt : α → String) (label : String → String)
+    (metaLines : List (List String)) (src : Src α) (mask : List Bool) (feats : List String)
+    (fts : List (Feat α)) (hlk : lookupAll src (tsvFeats feats) = some fts) (hne : fts ≠ [])
+    (hsc : fts.all (fun ft => ft.kind = .scalar) = true)
+    (hr : ∀ ft ∈ fts, ∀ i ∈ indices mask, i < ft.rows.length) (c : Nat) (hc : 0 < c) :
+    tsvText fmt label metaLines src true mask feats =
+      some (tsvTextChunked c fmt label metaLines (tsvFeats feats) (indices mask)
+        fun j => fts.map fun ft => ft.rows.getD j default) := by
+  unfold tsvText tsvTextChunked
+  rw [tsv_chunked_rows src mask feats fts hlk hne hsc hr c hc]
+  simp only [List.map_flatten]
+
+example : tsvText (fun n : Nat => toString n) (fun f => f ++ " [a.u.]") [["dclab version: x"], []]
+    demoSrc true [true, false, true, true, true] ["Deform", "deform"]
+    = some [.comment ["dclab version: x"], .comment [], .comment ["deform"],
+            .comment ["deform [a.u.]"], .data ["1"], .data ["3"], .data ["4"], .data ["5"]] := by
+  decide +kernel
 
 end DclabModel.C02
